@@ -9,6 +9,8 @@ import (
 	"google.golang.org/grpc/codes"
 
 	"github.com/smart-core-os/sc-api/go/types"
+	"github.com/smart-core-os/sc-golang/internal/testproto"
+	"github.com/smart-core-os/sc-golang/pkg/resource"
 )
 
 // C04 — with backpressure the stream is an exact, ordered edit script (DESIGN.md §5 C04).
@@ -41,7 +43,9 @@ type scriptSub struct {
 
 func scriptRun(w *World, coll bool) {
 	t := w.Tape
-	cfg := resCfg{Coll: coll, Equiv: t.Flag(1, 3)}
+	// (in half of the runs every message has a constant nested part and somebody keeps reading with a read mask that
+	// reaches into it: whatever such a read does, what the subscribers are sent must stay whole)
+	cfg := resCfg{Coll: coll, Equiv: t.Flag(1, 3), Ballast: t.Flag(1, 2)}
 	var nextV int32
 	fresh := func() int32 { nextV++; return nextV }
 	ids := []string{"a", "b", "c"}
@@ -254,6 +258,48 @@ func scriptRun(w *World, coll bool) {
 			}
 		})
 	}
+	var stopProbe context.CancelFunc
+	if cfg.Ballast {
+		nested := resource.WithReadPaths(&testproto.TestAllTypes{}, "default_nested_message.a", fV)
+		np := 1 + t.Choose(2*nops)
+		pctx, cancel := context.WithCancel(context.Background())
+		stopProbe = cancel
+		w.Go("masked-reader", true, func(task *Task) {
+			var events <-chan *resource.CollectionChange
+			var vevents <-chan *resource.ValueChange
+			if task.W.Tape.Flag(1, 2) {
+				if coll {
+					events = r.col.Pull(pctx, nested)
+				} else {
+					vevents = r.val.Pull(pctx, nested)
+				}
+			}
+			for i := 0; i < np; i++ {
+				task.Yield("masked-read")
+				switch {
+				case events != nil || vevents != nil:
+					select {
+					case <-events:
+					case <-vevents:
+					default:
+					}
+				case coll:
+					r.col.List(nested)
+				default:
+					r.val.Get(nested)
+				}
+			}
+			cancel()
+			if events != nil {
+				for range events {
+				}
+			}
+			if vevents != nil {
+				for range vevents {
+				}
+			}
+		})
+	}
 	w.Go("w", false, func(task *Task) {
 		for i := 0; i < nops; i++ {
 			openSubs(task, i)
@@ -304,6 +350,11 @@ func scriptRun(w *World, coll bool) {
 				} else {
 					o.Expect = mm{V: 999}
 				}
+			}
+			if cfg.Ballast {
+				// (a whole-message expectation would have to know whether the stored item was created through a mask
+				// that left the nested part out)
+				o.HasExpect = false
 			}
 			if t.Flag(1, 6) {
 				o.HasCheck = true
@@ -401,6 +452,9 @@ func scriptRun(w *World, coll bool) {
 	for _, c := range passers {
 		c()
 	}
+	if stopProbe != nil {
+		stopProbe()
+	}
 	w.Run()
 }
 
@@ -433,7 +487,11 @@ func scriptDiff(s *scriptSub) *scriptDelta {
 		if gi >= len(got) {
 			return &scriptDelta{"script-mismatch", "missing", fmt.Sprintf("event %s (%s) was never received", e.sev, e.What), e}
 		}
-		return &scriptDelta{"script-mismatch", "different", fmt.Sprintf("expected %s (%s) but received %s", e.sev, e.What, got[gi]), e}
+		note := ""
+		if got[gi].NonFlat {
+			note = fmt.Sprintf(" whose message carries something other than what was written (raw: old %v new %v)", got[gi].RawOld, got[gi].RawNew)
+		}
+		return &scriptDelta{"script-mismatch", "different", fmt.Sprintf("expected %s (%s) but received %s%s", e.sev, e.What, got[gi], note), e}
 	}
 	if gi < len(got) {
 		return &scriptDelta{"script-mismatch", "extra", fmt.Sprintf("unexpected extra event %s", got[gi]), expEv{sev: got[gi]}}
